@@ -87,7 +87,16 @@ def execute(st, ctx):
             if uses:
                 k1 = st.faults.draw(len(uses))
                 f1 = uses[k1] + (make_fault(st.faults.draw(len(FAULT_TYPES)), "fault@%d" % k1),)
-                if uses[k1][0] in base.world.fns and st.faults.draw(4) == 3:
+                ended = {ev[1] for ev in base.world.log if ev[0] == "eos"}
+                open_sources = sorted({u[0] for u in uses if u[0] not in base.world.fns and u[0] not in ended})
+                if open_sources and st.faults.draw(4) == 3:
+                    # ... or at the pull after the last one the stdlib makes of a source it has not seen the end of: a
+                    # tool that reads further ahead than its counterpart runs into it
+                    party = open_sources[st.faults.draw(len(open_sources))]
+                    last = max(u[1] for u in uses if u[0] == party)
+                    f1 = (party, last + 1, f1[2])
+                    out.faults["source_fails_beyond_stdlib_last_pull"] = 1
+                elif uses[k1][0] in base.world.fns and st.faults.draw(4) == 3:
                     # ... or at a use the stdlib never makes (one to three calls beyond its last call of that callable):
                     # a tool that calls its function more often than its counterpart runs into it
                     party = uses[k1][0]
